@@ -36,12 +36,15 @@ def run(R, job):
     fails, checked, nontrivial, samples = [], 0, 0, []
 
     def dep(i):
+        # every line of a dependency's markup is unique to (name, version, i), so that it can be located in the document
+        nm, ver = r.choice(["a", "b", "c"]), r.choice(["1.0", "1.2", "1.10"])
+        u = f"{nm}-{ver}-{i}"
         kw = {}
-        if r.random() < 0.6: kw["script"] = {"src": f"s{i}.js"}
-        if r.random() < 0.4: kw["stylesheet"] = [{"href": f"c{i}.css"}]
-        if r.random() < 0.3: kw["meta"] = {"name": f"m{i}", "content": "c"}
-        if r.random() < 0.3: kw["head"] = f"<!--head{i}-->"
-        return core.HTMLDependency(r.choice(["a", "b", "c"]), r.choice(["1.0", "1.2", "1.10"]), source={"subdir": "lib"}, **kw)
+        if r.random() < 0.6: kw["script"] = {"src": f"s{u}.js"}
+        if r.random() < 0.4: kw["stylesheet"] = [{"href": f"c{u}.css"}]
+        if r.random() < 0.3: kw["meta"] = {"name": f"m{u}", "content": "c"}
+        if r.random() < 0.3: kw["head"] = f"<!--head{u}-->"
+        return core.HTMLDependency(nm, ver, source={"subdir": "lib"}, **kw)
 
     def frag(d):
         kids = []
@@ -66,7 +69,7 @@ def run(R, job):
         elif shape == "html":
             content = [core.Tag("html", core.Tag("body", *frag(2)))]
         elif shape == "html+head":
-            content = [core.Tag("html", core.Tag("head", *user_head_kids), core.Tag("body", *frag(2)))]
+            content = [core.Tag("html", core.Tag("head", *user_head_kids, id="uh", data_k="v"), core.Tag("body", *frag(2)))]
         elif shape == "html head later":
             content = [core.Tag("html", dep(9), core.Tag("body", *frag(1)), core.Tag("head", *user_head_kids))]
         elif shape == "html no body":
@@ -98,6 +101,8 @@ def run(R, job):
             expect_heads = max(1, sum(1 for k in (content[0].children if shape.startswith("html") else []) if isinstance(k, core.Tag) and k.name == "head"))
             if len(heads) != expect_heads:
                 problems.append(f"{len(heads)} <head> children")
+            elif shape == "html+head" and dict(heads[0]["a"]).get("id") != "uh":
+                problems.append("the user's own <head> (its attributes) was not kept")
             elif not heads[0]["k"] or heads[0]["k"][0]["t"] != "meta" or dict(heads[0]["k"][0]["a"]).get("charset") != "utf-8":
                 problems.append("head does not start with <meta charset=utf-8>")
             if shape in ("fragment", "list", "body", "appended"):
@@ -143,15 +148,20 @@ def run(R, job):
             pos = -1
             for d in exp:
                 piece = d.as_html_tags(lib_prefix=lp, include_version=iv).get_html_string(indent=2)
-                if not piece.strip():
+                # compare line by line, ignoring indentation: adjacent inline pieces (e.g. two head comments) share a line in the document
+                plines = [l.strip() for l in piece.splitlines() if l.strip()]
+                if not plines:
                     continue
-                if html.count(piece) != 1:
-                    problems.append(f"markup of dependency {d.name} occurs {html.count(piece)} times")
+                bad = None
+                for l in plines:
+                    if html.count(l) != 1:
+                        bad = f"markup line {l!r} of dependency {d.name} occurs {html.count(l)} times"
+                    elif l not in headhtml:
+                        bad = f"markup of dependency {d.name} is not inside the first head"
+                if bad:
+                    problems.append(bad)
                     break
-                if piece not in headhtml:
-                    problems.append(f"markup of dependency {d.name} is not inside the first head")
-                    break
-                np_ = html.index(piece)
+                np_ = html.index(plines[0])
                 if np_ < pos:
                     problems.append("dependency markup not in resolved order")
                 pos = np_
